@@ -367,6 +367,13 @@ fn search_path(strict_d6: bool) -> (usize, Option<Value>) {
             if real != spec {
                 return (n, Some(json!({"fn": "canonicalize_uri_path", "input": st, "s3": s3, "real": format!("{:?}", real), "spec": format!("{:?}", spec)})));
             }
+            // idempotence on the real function: canonicalising a canonical path changes nothing
+            if let Ok(c1) = &real {
+                let again = real_path(c1, s3);
+                if again.as_ref() != Ok(c1) {
+                    return (n, Some(json!({"fn": "canonicalize_uri_path", "case": "not idempotent", "input": st, "s3": s3, "once": c1, "twice": format!("{:?}", again)})));
+                }
+            }
         }
     }
     // a few longer structured paths
